@@ -1,3 +1,174 @@
-import GoStd.Bytes
+/-
+C18 — Static route lookup has fixed precedence and a stable answer.
+
+"For a destination host the configured static routes are consulted with fixed precedence: an
+entry whose pattern equals the host literally wins; otherwise an entry whose pattern matches when
+'*' stands for any character sequence and '.' only for itself; otherwise the `default` entry;
+otherwise the host is not statically routable. The answer is the same every time the same host
+is looked up, and a next hop written `host:port` yields that port, or 5060 (5061 for tls) when
+the port is omitted."
+
+Model: Side.StaticRoute (preconfig_route.go). Stability: `findRoute` is a function of the table
+in configuration order; that the code scans in that order and no longer ranges over a map is the
+regenerated fact F7 (Expected.Facts.findRoute_no_map_range) plus the 50-fold repetition in stream
+`route`. `glob` stands for Go's regexp on the escaped pattern (assumption, DESIGN section 8).
+-/
+import Side.StaticRoute
+import Spec.Side
+import Lemmas.Bytes
+open GoStd Side.SR
+
 namespace Props.C18
+
+/-! ### what a pattern means -/
+
+theorem mem_suffixes (h y : Bytes) : y ∈ suffixes h ↔ ∃ x, h = x ++ y := by
+  induction h with
+  | nil =>
+    simp only [suffixes, List.mem_singleton]
+    constructor
+    · rintro rfl; exact ⟨[], rfl⟩
+    · rintro ⟨x, hx⟩
+      have := congrArg List.length hx
+      simp at this
+      exact List.eq_nil_of_length_eq_zero (by omega)
+  | cons d ds ih =>
+    simp only [suffixes, List.mem_cons, ih]
+    constructor
+    · rintro (rfl | ⟨x, hx⟩)
+      · exact ⟨[], rfl⟩
+      · exact ⟨d :: x, by simp [hx]⟩
+    · rintro ⟨x, hx⟩
+      cases x with
+      | nil => left; simpa using hx.symm
+      | cons e es =>
+        right
+        simp only [List.cons_append, List.cons.injEq] at hx
+        exact ⟨es, hx.2⟩
+
+/-- A pattern without '*' matches exactly itself ('.' included: every byte stands for itself). -/
+theorem glob_literal (p h : Bytes) (hp : (42 : UInt8) ∉ p) : glob p h = true ↔ p = h := by
+  induction p generalizing h with
+  | nil => cases h <;> simp [glob]
+  | cons c cs ih =>
+    have hc : c ≠ 42 := fun e => hp (by simp [e])
+    have hcs : (42 : UInt8) ∉ cs := fun m => hp (by simp [m])
+    cases h with
+    | nil => simp [glob, hc]
+    | cons d ds =>
+      simp only [glob, beq_iff_eq, hc, ↓reduceIte, Bool.and_eq_true, ih ds hcs, List.cons.injEq]
+
+/-- '*' stands for any byte sequence: `* :: p` matches h iff some suffix of h matches p. -/
+theorem glob_star (p h : Bytes) : glob (42 :: p) h = true ↔ ∃ x y, h = x ++ y ∧ glob p y = true := by
+  simp only [glob, beq_self_eq_true, ↓reduceIte, List.any_eq_true, mem_suffixes]
+  constructor
+  · rintro ⟨y, ⟨x, hx⟩, hg⟩; exact ⟨x, y, hx, hg⟩
+  · rintro ⟨x, y, hx, hg⟩; exact ⟨y, ⟨x, hx⟩, hg⟩
+
+/-- A literal byte must be matched by itself. -/
+theorem glob_cons (c : UInt8) (p h : Bytes) (hc : c ≠ 42) :
+    glob (c :: p) h = true ↔ ∃ t, h = c :: t ∧ glob p t = true := by
+  cases h with
+  | nil => simp [glob, hc]
+  | cons d ds =>
+    simp only [glob, beq_iff_eq, hc, ↓reduceIte, Bool.and_eq_true, List.cons.injEq]
+    constructor
+    · rintro ⟨rfl, hg⟩; exact ⟨ds, ⟨rfl, rfl⟩, hg⟩
+    · rintro ⟨t, ⟨rfl, rfl⟩, hg⟩; exact ⟨rfl, hg⟩
+
+/-! ### precedence -/
+
+/-- (1) An entry whose pattern equals the host literally wins. -/
+theorem C18_literal_wins (t : Table) (host : Bytes) (it : Item)
+    (h : t.find? (fun x => x.dest == host) = some it) : findRoute t host = some it := by
+  simp [findRoute, lookupExact, h]
+
+/-- (2) Otherwise the first entry, in configuration order, whose pattern matches. -/
+theorem C18_wildcard_next (t : Table) (host : Bytes) (it : Item)
+    (hno : t.find? (fun x => x.dest == host) = none)
+    (h : t.find? (fun x => glob x.dest host) = some it) :
+    findRoute t host = some it ∧ it ∈ t ∧ glob it.dest host = true := by
+  refine ⟨by simp [findRoute, lookupExact, hno, h], List.mem_of_find?_eq_some h, ?_⟩
+  simpa using List.find?_some h
+
+/-- (3) Otherwise the `default` entry; (4) otherwise not routable. -/
+theorem C18_default_last (t : Table) (host : Bytes)
+    (hno : t.find? (fun x => x.dest == host) = none)
+    (hnw : ∀ x ∈ t, glob x.dest host = false) :
+    findRoute t host = t.find? (fun x => x.dest == str "default") := by
+  have : t.find? (fun x => glob x.dest host) = none := by
+    simp only [List.find?_eq_none]
+    intro x hx; simp [hnw x hx]
+  simp [findRoute, lookupExact, hno, this]
+
+/-- The model satisfies the oracle that is evaluated on the implementation (Spec.routeAllowed is
+written from the property text: literal, else any matching pattern, else default, else none). -/
+theorem C18_precedence (t : Table) (host : Bytes) : Spec.routeAllowed t host (findRoute t host) = true := by
+  unfold Spec.routeAllowed
+  cases hlit : t.find? (fun x => x.dest == host) with
+  | some it => simp [C18_literal_wins t host it hlit]
+  | none =>
+    simp only
+    cases hw : t.find? (fun x => glob x.dest host) with
+    | some it =>
+      obtain ⟨h1, h2, h3⟩ := C18_wildcard_next t host it hlit hw
+      have hmem : it ∈ t.filter (fun x => glob x.dest host) := List.mem_filter.mpr ⟨h2, h3⟩
+      have hne : (t.filter (fun x => glob x.dest host)).isEmpty = false := by
+        cases hf : t.filter (fun x => glob x.dest host) with
+        | nil => rw [hf] at hmem; cases hmem
+        | cons _ _ => rfl
+      simp only [hne, Bool.not_false, ↓reduceIte, h1]
+      simpa using hmem
+    | none =>
+      have hnw : ∀ x ∈ t, glob x.dest host = false := by
+        intro x hx
+        have := List.find?_eq_none.mp hw x hx
+        simpa using this
+      have hempty : t.filter (fun x => glob x.dest host) = [] := by
+        simp only [List.filter_eq_nil_iff]
+        intro x hx; simp [hnw x hx]
+      rw [C18_default_last t host hlit hnw]
+      simp only [hempty, List.isEmpty_nil, Bool.not_true, Bool.false_eq_true, ↓reduceIte]
+      cases t.find? (fun x => x.dest == str "default") <;> simp
+
+/-- The answer is the same every time: the lookup reads nothing but the table and the host. -/
+theorem C18_deterministic (t : Table) (host : Bytes) (r₁ r₂ : Option Item)
+    (h₁ : r₁ = findRoute t host) (h₂ : r₂ = findRoute t host) : r₁ = r₂ := by rw [h₁, h₂]
+
+/-! ### next-hop strings -/
+
+/-- `host:port` yields that port. -/
+theorem C18_nexthop_with_port (proto dest h p : Bytes) (n : Int) (hp : (58 : UInt8) ∉ p) (ha : atoi p = some n) :
+    newItem proto dest (h ++ 58 :: p) = some { protocol := proto, dest := dest, host := h, port := n } := by
+  have hc : cutLast 58 (h ++ 58 :: p) = some (h, p) := by
+    induction h with
+    | nil =>
+      have : cutLast 58 p = none := by
+        clear ha
+        induction p with
+        | nil => rfl
+        | cons b bs ih =>
+          have hb : b ≠ 58 := fun e => hp (by simp [e])
+          have := ih (fun m => hp (by simp [m]))
+          simp [cutLast, this, hb]
+      simp [cutLast, this]
+    | cons b bs ih => simp [cutLast, ih]
+  simp [newItem, hc, ha]
+
+/-- Without a port: 5060, or 5061 when the protocol is tls (any letter case). -/
+theorem C18_nexthop_default_port (proto dest h : Bytes) (hh : (58 : UInt8) ∉ h) :
+    newItem proto dest h = some { protocol := proto, dest := dest, host := h,
+                                  port := if equalFold (str "tls") proto then 5061 else 5060 } := by
+  have : cutLast 58 h = none := by
+    induction h with
+    | nil => rfl
+    | cons b bs ih =>
+      have hb : b ≠ 58 := fun e => hh (by simp [e])
+      have := ih (fun m => hh (by simp [m]))
+      simp [cutLast, this, hb]
+  simp [newItem, this]
+
+/-! ### non-vacuity -/
+example : glob [42, 46, 97] [120, 46, 97] = true ∧ glob [42, 46, 97] [120, 88, 97] = false := by decide
+
 end Props.C18
